@@ -299,6 +299,19 @@ NextCb ==
             /\ cur' = [cur EXCEPT !.cbs = rest]
             /\ log' = Append(log, L("P", e, evs[e].ok, evs[e].val))
             /\ UNCHANGED <<agenda, seq, evs, procs, run, top>>
+       [] cb.t = "cbintr" ->
+            \* a plain callback (no process is active while it runs) interrupts process p with cause (from, n);
+            \* cb.x = p * 10^6 + from * 10^3 + n
+            LET p == cb.x \div 1000000  from == (cb.x \div 1000) % 1000  n == cb.x % 1000  ie == Len(evs) + 1 IN
+            IF procs[p].alive
+            THEN /\ cur' = [cur EXCEPT !.cbs = rest]
+                 /\ evs' = Append(evs, NewEv("intr", "triggered", FALSE, Val("intr", from, <<n>>), TRUE, <<Cb("intr", 0)>>, p, <<>>, FALSE))
+                 /\ agenda' = agenda \cup {Entry(ie, URG, 0, seq)} /\ seq' = seq + 1
+                 /\ UNCHANGED <<procs, run, top, log>>
+            ELSE \* the victim has ended: interrupt() raises RuntimeError (caught and logged by the callback) and has no other effect
+                 /\ cur' = [cur EXCEPT !.cbs = rest]
+                 /\ log' = Append(log, L("E", 0, FALSE, Val("RuntimeError", 0, <<>>)))
+                 /\ UNCHANGED <<agenda, seq, evs, procs, run, top>>
        [] cb.t \in {"tget", "tput"} ->            \* BaseResource._trigger_get / _trigger_put on resource cb.x
             LET S0 == [E |-> evs, ag |-> agenda, sq |-> seq, R |-> res]
                 S1 == IF cb.t = "tget" THEN TriggerGet(S0, cb.x) ELSE TriggerPut(S0, cb.x)
@@ -368,6 +381,7 @@ Valid(o) ==
     [] o.k = "trigger" -> /\ Exists(o.a) /\ evs[o.a].kind = "ev"
                           /\ Exists(o.b) /\ evs[o.b].kind \in UserKinds /\ evs[o.b].st # "pending" /\ o.b # o.a
     [] o.k = "interrupt" -> o.a \in 1..Len(procs)
+    [] o.k = "cbintr" -> Exists(o.a) /\ evs[o.a].kind \in UserKinds /\ evs[o.a].st # "processed" /\ o.b \in 1..Len(procs)
     [] o.k = "cond" -> \A i \in 1..Len(o.s) : Exists(o.s[i]) /\ evs[o.s[i]].kind \in UserKinds   \* the same event may be listed twice
     [] o.k = "runev" -> Exists(o.a) /\ evs[o.a].kind \in UserKinds
     [] o.k \in {"request", "put", "get"} -> o.a \in 1..Len(res)
@@ -453,6 +467,9 @@ Do(o) ==
                                                 TRUE, <<Cb("intr", 0)>>, o.a, <<>>, FALSE))
                     /\ agenda' = agenda \cup {Entry(ie, URG, 0, seq)} /\ seq' = seq + 1 /\ log' = log
             /\ procs' = Bump(procs) /\ UNCHANGED run
+       [] o.k = "cbintr" ->                        \* event a gets a plain callback that will interrupt process b
+            /\ evs' = [evs EXCEPT ![o.a].cbs = Append(@, Cb("cbintr", o.b * 1000000 + P * 1000 + NOps))]
+            /\ procs' = Bump(procs) /\ UNCHANGED <<agenda, seq, run, log>>
        [] o.k = "cond" ->                          \* a = 1: all_of, 0: any_of; s = operands; b = 1: with probe
             LET c == Len(evs) + 1
                 probe == IF o.b = 1 THEN <<Cb("probe", c)>> ELSE <<>>
